@@ -1,8 +1,8 @@
-import TracklibVerif.Model.Partition
+import TracklibVerif.Model.PartitionArr
 import TracklibVerif.Drv.Util
 /-! Driver handler for C12. A matrix is `;`-separated rows of `,`-separated scalars; `<s>` selects the scalar:
 `q` = exact rationals `p/q`, `f` = IEEE doubles as bit patterns.
-  part <s> <mode> <matrix>      → `<index list> <D[0,N-1]>`   (`optimalPartition`, table form; N = rows − 1)
+  part <s> <mode> <matrix>      → `<index list> <D[0,N-1]>`   (`optimalPartitionA`: D and M as real arrays; N = rows − 1)
   opt <s> <mode> <matrix>       → `<D[0,N-1]>`                (function form `opt`, for cross-checking the two forms)
   seg <s> <mode> <W>            → index list of `optimalSegmentation` on a track of `rows(W)` observations with
                                   `cost(track, i, j-1) = W[i][j]`
@@ -28,8 +28,8 @@ def run {α} [Add α] [LT α] [DecidableLT α] (zero : α) (shw : α → String)
     let C := fn zero m
     match cmd with
     | "part" =>
-      let t := tables zero rows C mode
-      s!"{showList toString (backward t.M (rows - 1))} {shw (t.D 0 (rows - 2))}"
+      let t := tablesA zero rows C mode
+      s!"{showList toString (backward (mget 0 t.M) (rows - 1))} {shw (mget zero t.D 0 (rows - 2))}"
     | "opt" => shw (opt (better mode) (· + ·) C (rows - 1) 0 (rows - 2)).1
     | "seg" => showList toString (optimalSegmentation zero rows (fun i e => C i (e + 1).toNat) mode)
     | "simp" => showList toString (optimalSimplification zero (List.range rows) (fun i e => C i (e + 1).toNat) mode)
